@@ -134,7 +134,7 @@ def _instruction(sc, ctx, e):
         sc.write.append(("break",))
         sc.read.append(("next_chunk",))
         ctx.emitted = True
-        ctx.opt_chain = ctx.opt_chain  # a break does not reset what was emitted
+        ctx.opt_chain = []  # a chunk boundary: the "missing optional" chain starts again in the next chunk
     elif tag == "chunked":
         was = ctx.in_chunked
         if not was:
